@@ -409,7 +409,23 @@ def run(ctx):
                       "a non-scalar argument value yields the invalid plugin",
                       "a non-scalar argument value returns the partially filled plugin: that argument and all later ones "
                       "are dropped silently and the plugin is accepted with fewer arguments than configured")
+        # the argument text handed to the plugin is jsoncpp's own rendering of that JSON scalar (integers exactly, reals with 17 significant digits)
+        Xp = Expander(P, f)
+        aw = [i for i, n in enumerate(f.nodes) if n["k"] in ("bin", "call") and n.get("op") == "=" and f.pos_of(i) is not None and ".args[" in f.text(n.get("l", n.get("recv", -1)))]
+        ctx.count("plugin_arg_writes", len(aw))
+        for i in aw:
+            n = f.nodes[i]
+            lhs = n.get("l", n.get("recv"))
+            rhs = n["r"] if "r" in n else n["args"][0]
+            keyt = re.search(r"\.args\[(.*)\]$", Xp(lhs))
+            rt = Xp(rhs)
+            ok_ = keyt is not None and re.match(r"^(elem\(.*\)|.*)\.asString\(\)$", rt) is not None and ("[%s]" % keyt.group(1)) in rt
+            ctx.check(ok_, "json:arg-text-is-the-json-scalar:" + f.d.get("ret", "")[-20:], "provenance", f.loc(i),
+                      "args[key] = json_args[key].asString(): the value reaches the plugin as jsoncpp renders it (64-bit integers exactly, reals round-trip)",
+                      "args[%s] is assigned %s instead of the JSON value's own asString(): numbers can be re-formatted with fewer digits (a byte count "
+                      "written as a real, a ratio with 7+ significant digits) before the plugin parses them" % (keyt.group(1) if keyt else "?", rt[:100]))
     ctx.floor("parsePlugin_instances", 2, "parsePlugin instantiations")
+    ctx.floor("plugin_arg_writes", 2, "assignments to args[key] in parsePlugin")
 
     # ------------------------------------------------ (vii) compile functions
     for q in ("compileRuleset", "compileDetectorGroup", "compilePluginGeneric", "Oomd::Config2::compile", "Oomd::Config2::compileDropIn"):
